@@ -103,6 +103,9 @@ func (re *remainderExprNode) Run(ctx context.Context, currField string, tagExpr 
 		return math.NaN()
 	}
 	v0, _ := toFloat64(re.leftOperand.Run(ctx, currField, tagExpr), true)
+	if int64(v1) == 0 {
+		return math.NaN()
+	}
 	return float64(int64(v0) % int64(v1))
 }
 
